@@ -797,6 +797,7 @@ structure AvCfg (R : Type) where
   pfx : Bytes → PrefixRes
   known : Nat → Bool
   row : Nat → Bytes → RowRes R
+  valid : R → Bool   -- the row's values pass the checks `flush` performs (e.g. UTF-8)
 
 /-- `Decoder { active_fingerprint, pending_schema, awaiting_body, remaining_capacity }` plus the
 rows buffered in the active `RecordDecoder` -/
@@ -855,8 +856,9 @@ def avDecode {R : Type} (cfg : AvCfg R) : Nat → AvState R → Bytes → AvStat
 
 /-- `Decoder::flush`: the buffered rows (with their schema) if any, then the pending schema -/
 def avFlush {R : Type} (cfg : AvCfg R) (s : AvState R) : AvState R × List (Nat × List R) :=
-  let out := if s.cap = cfg.batchSize then [] else [(s.active.getD 0, s.rows)]
-  (avApplyPending { s with cap := cfg.batchSize, rows := [] }, out)
+  if s.cap = cfg.batchSize then (avApplyPending { s with rows := [] }, [])
+  else if !s.rows.all cfg.valid then ({ s with err := true, rows := [] }, [])   -- `flush` returns `Err`
+  else (avApplyPending { s with cap := cfg.batchSize, rows := [] }, [(s.active.getD 0, s.rows)])
 
 /-- the caller's loop for one chunk: append to the rolling buffer, `decode`, drop what was
 consumed, `flush` whenever the batch is full; then the extra flush of the policy -/
@@ -869,7 +871,7 @@ def avPush {R : Type} (cfg : AvCfg R) (extraFlush : Bool) :
     if r.1.err then ((r.1, buf'), acc)
     else if r.1.cap = 0 then
       let f := avFlush cfg r.1
-      if buf'.isEmpty then
+      if buf'.isEmpty || f.1.err then
         ((f.1, buf'), acc ++ f.2)
       else avPush cfg extraFlush fuel (f.1, buf') (acc ++ f.2)
     else if extraFlush then
